@@ -116,59 +116,92 @@ def n5_derives(src, log):
 
 
 def n2_let_chains(src, log):
-    """if let P = E && let Q = F { B }   (no else)  ->  if let P = E { if let Q = F { B } }"""
+    """if C1 && let P = E && C2 { B }   (no else, at least one `let` conjunct, only `&&` at top level)
+         ->  if C1 { if let P = E { if C2 { B } } }"""
     while True:
         toks = lex(src)
         done = True
         for i, t in enumerate(toks):
-            if not (t.text == "if" and t.kind == "ident" and i + 1 < len(toks) and toks[i + 1].text == "let"):
+            if not (t.text == "if" and t.kind == "ident"):
                 continue
             d = t.depth
-            # scan to body `{`: after each `let`, skip the pattern to `=`, then the expression
+            # find the body `{`: first `{` at depth d that is not part of a `let` pattern
             k = i + 1
-            conj = []      # token indices of `&&` separating let-clauses
+            conj_starts = [k]
+            ands = []
+            has_let = False
+            in_pattern = toks[k].text == "let"
+            has_let = in_pattern
             body = -1
             while k < len(toks):
-                assert toks[k].text == "let"
-                # pattern up to `=` at depth d
-                k += 1
-                while not (toks[k].text == "=" and toks[k].depth == d):
-                    if toks[k].kind == "open":
-                        k = toks[k].mate
-                    k += 1
-                k += 1
-                # expression up to `&& let` or `{` at depth d
-                while True:
-                    tk = toks[k]
-                    if tk.depth == d and tk.text == "{":
+                tk = toks[k]
+                if tk.depth == d:
+                    if in_pattern and tk.text == "=" and tk.kind == "punct":
+                        in_pattern = False
+                    elif tk.text == "{" and not in_pattern:
                         body = k
                         break
-                    if tk.depth == d and tk.text == "&&" and toks[k + 1].text == "let":
-                        conj.append(k)
+                    elif tk.text == "&&" and not in_pattern:
+                        ands.append(k)
+                        conj_starts.append(k + 1)
+                        if toks[k + 1].text == "let":
+                            in_pattern = True
+                            has_let = True
+                    elif tk.text == "||" and not in_pattern:
+                        ands = None
                         break
-                    if tk.depth == d and tk.text in ("&&", "||"):
-                        raise Unsupported("mixed boolean / let chain")
-                    if tk.kind == "open":
-                        k = tk.mate
-                    k += 1
-                if body >= 0:
-                    break
+                    elif tk.text in (";",) :
+                        break
+                if tk.kind == "open":
+                    k = tk.mate
                 k += 1
-            if not conj:
+            if ands is None or body < 0 or not has_let or not ands:
                 continue
             close = toks[body].mate
             if close + 1 < len(toks) and toks[close + 1].text == "else":
                 raise Unsupported("let chain with else")
-            edits = []
-            for cj in conj:
-                edits.append((toks[cj].start, toks[cj].end, "{ if"))
-            edits.append((toks[close].end, toks[close].end, " }" * len(conj)))
+            edits = [(toks[a].start, toks[a].end, "{ if") for a in ands]
+            edits.append((toks[close].end, toks[close].end, " }" * len(ands)))
             src = _apply(src, edits)
-            log.append(f"N2 let-chain of {len(conj) + 1} clauses -> nested if let")
+            log.append(f"N2 if-chain of {len(ands) + 1} conjuncts (with let) -> nested ifs")
             done = False
             break
         if done:
             return src
+
+
+def n7_for_enumerate(src, log):
+    """for (I, X) in S.iter().enumerate() { B }  ->  for I in 0..S.len() { let X = &S[I]; B }"""
+    while True:
+        toks = lex(src)
+        hit = None
+        for i, t in enumerate(toks):
+            if not (t.text == "for" and t.kind == "ident" and i + 1 < len(toks) and toks[i + 1].text == "("):
+                continue
+            pc = toks[i + 1].mate
+            pat = _split_args(src, toks, i + 1)
+            if len(pat) != 2 or toks[pc + 1].text != "in":
+                continue
+            # S.iter().enumerate() {
+            k = pc + 2
+            d = t.depth
+            while k < len(toks) and not (toks[k].text == "{" and toks[k].depth == d):
+                if toks[k].kind == "open":
+                    k = toks[k].mate
+                k += 1
+            body = k
+            tail = [toks[x].text for x in range(body - 8, body)]
+            if tail != [".", "iter", "(", ")", ".", "enumerate", "(", ")"]:
+                continue
+            recv = src[toks[pc + 2].start:toks[body - 9].end]
+            hit = (i, body, pat, recv)
+            break
+        if hit is None:
+            return src
+        i, body, pat, recv = hit
+        rep = f"for {pat[0]} in 0..{recv}.len() {{ let {pat[1]} = &{recv}[{pat[0]}];"
+        src = src[:toks[i].start] + rep + src[toks[body].end:]
+        log.append(f"N7 for ({pat[0]}, {pat[1]}) in {recv}.iter().enumerate() -> index loop")
 
 
 def find_closures(src, toks):
@@ -391,6 +424,35 @@ def n7_collect_result(src, log):
         log.append("N7 collect::<Result<Vec<_>,_>>() -> vx_collect_results(E.collect())")
 
 
+def n10_entry_append(src, log):
+    """X.entry(K).or_default().append(&mut P)  ->  vx_map_append(&mut X, K, &mut P)
+       X.entry(K).or_default().extend(P)       ->  vx_map_extend(&mut X, K, P)
+    (HashMap entry API: the two-step borrow through `Entry` is replaced by one trusted helper)"""
+    while True:
+        toks = lex(src)
+        hit = None
+        for i, t in enumerate(toks):
+            if t.text == "." and i + 2 < len(toks) and toks[i + 1].text == "entry" and toks[i + 2].text == "(":
+                c1 = toks[i + 2].mate
+                if not (toks[c1 + 1].text == "." and toks[c1 + 2].text == "or_default" and toks[c1 + 3].text == "("
+                        and toks[c1 + 3].mate == c1 + 4 and toks[c1 + 5].text == "."
+                        and toks[c1 + 6].text in ("append", "extend") and toks[c1 + 7].text == "("):
+                    continue
+                hit = (i, c1, toks[c1 + 6].text, c1 + 7)
+                break
+        if hit is None:
+            return src
+        i, c1, meth, ao = hit
+        s0 = _chain_start(toks, i)
+        recv = src[toks[s0].start:toks[i].start]
+        key = src[toks[i + 2].end:toks[c1].start].strip()
+        arg = src[toks[ao].end:toks[toks[ao].mate].start].strip()
+        helper = "vx_map_append" if meth == "append" else "vx_map_extend"
+        rep = f"{helper}(&mut {' '.join(recv.split())}, {key}, {arg})"
+        src = src[:toks[s0].start] + rep + src[toks[toks[ao].mate].end:]
+        log.append(f"N10 {' '.join(recv.split())}.entry({key}).or_default().{meth}(..) -> {helper}(..)")
+
+
 def n3_cast(src, log, target, helper, only=None):
     """E as <target>  ->  helper(E)   for a postfix-chain operand E"""
     while True:
@@ -542,6 +604,10 @@ def normalise(src, rules, log):
             src = n1_closure_patterns(src, log)
         elif r == "n7sum":
             src = n7_sum(src, log)
+        elif r == "n10":
+            src = n10_entry_append(src, log)
+        elif r == "n7forenum":
+            src = n7_for_enumerate(src, log)
         elif r == "n7res":
             src = n7_collect_result(src, log)
         elif r == "n7enum":
